@@ -171,15 +171,318 @@ Definition defect_class (a b : node) : option defect :=
   | _, _ => classify_dirs a b
   end.
 
+(* ==== follow-up: paths, top-level symlinks with absolute targets, the memo ==== *)
+
+(* ---- PathHasher.ensureRelative (hash.go:284): a TEXTUAL prefix test against the repo root ---- *)
+Fixpoint strip_prefix (p x : str) : option str :=
+  match p, x with
+  | [], _ => Some x
+  | a :: p', b :: x' => if N.eqb a b then strip_prefix p' x' else None
+  | _ :: _, [] => None
+  end.
+Definition has_prefix (p x : str) : bool := match strip_prefix p x with Some _ => true | None => false end.
+Fixpoint trim_slashes (x : str) : str :=
+  match x with
+  | b :: r => if N.eqb b 47 then trim_slashes r else x
+  | [] => []
+  end.
+Definition ensure_relative (root p : str) : str :=
+  match strip_prefix root p with Some r => trim_slashes r | None => p end.
+Definition is_abs (p : str) : bool := match p with b :: _ => N.eqb b 47 | [] => false end.
+
+(* ---- a path given to Hash that is a symlink: hash.go:183-201 ----
+   dest = Readlink(path); the marker is written; then
+     (rel != dest || !IsAbs(dest)) && !IsAbs(path)  ->  the relativised target text is written
+     otherwise                                        ->  fileHash(h, path): the bytes of the file the link resolves to
+   (the condition is checked verbatim by gotrans; `path` has been through ensureRelative already). *)
+Definition link_in_repo (root path dest : str) : bool :=
+  let rel := ensure_relative root dest in
+  (negb (str_eqb rel dest) || negb (is_abs dest)) && negb (is_abs path).
+Definition emit_top (target pointee : str) (e : emit) : str :=
+  match e with
+  | EMarker => marker
+  | EContent => []
+  | ETarget => target
+  | EPointee => pointee
+  end.
+Definition run_top (p : list emit) (target pointee : str) : str := flat_map (emit_top target pointee) p.
+(* pointee: the bytes of the regular file the link resolves to; None if it does not resolve to a
+   readable regular file (Hash then returns an error and records nothing) *)
+Definition link_stream (root path dest : str) (pointee : option str) : option str :=
+  if link_in_repo root path dest
+  then Some (run_top top_link_in_repo (ensure_relative root dest) [])
+  else option_map (run_top top_link_outside []) pointee.
+
+(* what can sit at a path given to Hash *)
+Inductive top :=
+| TNode (n : node)                             (* a path inside the repo; Link t = symlink with a RELATIVE target *)
+| TAbsLink (t : str) (pointee : option str)    (* a path inside the repo: symlink with the ABSOLUTE target t *)
+| TOutLink (t : str) (pointee : option str).   (* a symlink hashed through an absolute path outside the repo *)
+
+Definition top_stream (root : str) (x : top) : option str :=
+  match x with
+  | TNode n => Some (stream n)
+  | TAbsLink t p => link_stream root [] t p          (* [] : any relative path *)
+  | TOutLink t p => link_stream root [47%N] t p      (* "/": any absolute path outside the root *)
+  end.
+
+Definition abs_target_ok (t : str) : bool :=
+  is_abs t && forallb (fun b => byte_ok b && negb (N.eqb b 0)) t.
+Definition pointee_ok (p : option str) : bool := match p with Some c => forallb byte_ok c | None => true end.
+(* the root: absolute, no trailing slash *)
+Definition root_ok (root : str) : bool :=
+  is_abs root && match rev root with b :: _ => negb (N.eqb b 47) | [] => false end.
+Definition top_wf (x : top) : bool :=
+  match x with
+  | TNode n => wf n
+  | TAbsLink t p => abs_target_ok t && pointee_ok p
+  | TOutLink t p => match t with [] => false | _ => true end && forallb (fun b => byte_ok b && negb (N.eqb b 0)) t && pointee_ok p
+  end.
+
+(* two paths differ AS TREES: kind, content, names, link target.  What a link points to is not part
+   of the tree (it lies outside it), so the pointee is not compared. *)
+Definition top_differs (x y : top) : bool :=
+  match x, y with
+  | TNode a, TNode b => negb (node_eqb a b)
+  | TAbsLink t _, TAbsLink t' _ => negb (str_eqb t t')
+  | TOutLink t _, TOutLink t' _ => negb (str_eqb t t')
+  | TNode (Link t), TAbsLink t' _ | TAbsLink t' _, TNode (Link t) => negb (str_eqb t t')   (* always true on wf input *)
+  | TNode (Link t), TOutLink t' _ | TOutLink t' _, TNode (Link t) => negb (str_eqb t t')
+  | TAbsLink t _, TOutLink t' _ | TOutLink t' _, TAbsLink t _ => negb (str_eqb t t')
+  | _, _ => true
+  end.
+
+(* the in-repo node that is hashed identically (the stream of a symlink is always marker ++ something) *)
+Definition link_text (root path dest : str) (pointee : option str) : option str :=
+  if link_in_repo root path dest then Some (ensure_relative root dest) else pointee.
+Definition eff (root : str) (x : top) : option node :=
+  match x with
+  | TNode n => Some n
+  | TAbsLink t p => option_map Link (link_text root [] t p)
+  | TOutLink t p => option_map Link (link_text root [47%N] t p)
+  end.
+
+Inductive tkind := KNode | KInRepo | KSibling | KExternal.
+(* an absolute target that only shares the root as a textual prefix: /r2/x under root /r *)
+Definition sibling_of_root (root t : str) : bool :=
+  match strip_prefix root t with Some (b :: _) => negb (N.eqb b 47) | _ => false end.
+Definition tkind_of (root : str) (x : top) : tkind :=
+  match x with
+  | TNode _ => KNode
+  | TAbsLink t _ => if link_in_repo root [] t then (if sibling_of_root root t then KSibling else KInRepo) else KExternal
+  | TOutLink _ _ => KExternal
+  end.
+
+Inductive tdefect :=
+| TInherited (d : defect)   (* the equivalent in-repo nodes differ and collide in one of the six classes *)
+| TExtTarget                (* external-symlink-target-not-hashed: two links leaving the repo, different targets, same pointee bytes *)
+| TExtContentAsTarget       (* external-symlink-content-aliases-link-target: pointee bytes of one = the repo-relative target text of the other *)
+| TRootStripped             (* absolute-in-repo-symlink-target-relativised: /root/a hashed like the relative target a *)
+| TSiblingStripped.         (* symlink-target-sibling-of-root-prefix-stripped: /root2/x hashed like the relative target 2/x *)
+
+Definition tdefect_eqb (a b : tdefect) : bool :=
+  match a, b with
+  | TInherited d, TInherited d' => defect_eqb d d'
+  | TExtTarget, TExtTarget | TExtContentAsTarget, TExtContentAsTarget
+  | TRootStripped, TRootStripped | TSiblingStripped, TSiblingStripped => true
+  | _, _ => false
+  end.
+
+Definition same_link_text (a b : node) : bool :=
+  match a, b with Link t, Link t' => str_eqb t t' | _, _ => false end.
+
+Definition top_class (root : str) (x y : top) : option tdefect :=
+  match eff root x, eff root y with
+  | Some a, Some b =>
+      match tkind_of root x, tkind_of root y with
+      | KNode, KNode => option_map TInherited (defect_class a b)
+      | kx, ky =>
+          if same_link_text a b then
+            match kx, ky with
+            | KExternal, KExternal => Some TExtTarget
+            | KExternal, _ | _, KExternal => Some TExtContentAsTarget
+            | KSibling, _ | _, KSibling => Some TSiblingStripped
+            | _, _ => Some TRootStripped
+            end
+          else option_map TInherited (defect_class a b)
+      end
+  | _, _ => None
+  end.
+
+(* ---- the memo of PathHasher as a state machine (hash.go:82-172) ----
+   Memo values are modelled by the STREAM whose digest is recorded (the digest is H stream).
+   A finite map is an association list, newest binding first; a binding to None is a deletion. *)
+Definition amap (A : Type) := list (str * option A).
+Definition aget {A} (m : amap A) (k : str) : option A :=
+  match find (fun e => str_eqb (fst e) k) m with Some (_, o) => o | None => None end.
+Definition aset {A} (m : amap A) (k : str) (o : option A) : amap A := (k, o) :: m.
+
+(* memo: key -> None (no entry) | Some None (entry holding nil: "do not trust xattrs, hash again")
+                | Some (Some v) (entry holding the digest of stream v)
+   files: what is on disk, keyed by the path relative to the root (= the working directory) *)
+Record mstate := MState { memo : amap (option str); files : amap node }.
+Definition mstate0 : mstate := MState [] [].
+
+Inductive op :=
+| OWrite (p : str) (t : node)     (* the world: (re)place the tree at p *)
+| ORemove (p : str)               (* the world: remove p *)
+| OCopyFs (o n : str)             (* the world: replace n by a copy of o (nothing happens if o does not exist) *)
+| OHash (p : str) (recalc : bool) (* PathHasher.Hash(p, recalc, _, false) *)
+| OMoveHash (o n : str)           (* PathHasher.MoveHash(o, n) *)
+| OCopyHash (o n : str)           (* PathHasher.CopyHash(o, n) *)
+| OSetHash (p : str) (v : str)    (* PathHasher.SetHash(p, digest of v) *)
+| OMoveOutput (o n : str).        (* build.moveOutput: MoveHash(o, n); RemoveAll(n); Rename(o, n)   (o exists, o <> n; else nothing) *)
+
+Inductive obs :=
+| ObsNone
+| ObsErr                               (* Hash returned an error *)
+| ObsVal (v : str) (recomputed : bool). (* Hash returned the digest of v; recomputed: it ran the hash function *)
+
+Definition obs_eqb (a b : obs) : bool :=
+  match a, b with
+  | ObsNone, ObsNone | ObsErr, ObsErr => true
+  | ObsVal v r, ObsVal v' r' => str_eqb v v' && Bool.eqb r r'
+  | _, _ => false
+  end.
+
+(* moveOrCopyHash(old, new, copy) *)
+Definition move_or_copy (root : str) (m : amap (option str)) (o n : str) (copy : bool) : amap (option str) :=
+  let ko := ensure_relative root o in
+  let kn := ensure_relative root n in
+  match aget m ko with
+  | Some h =>
+      let m1 := aset m kn (Some h) in
+      if negb copy && has_prefix memo_forget_prefix ko then aset m1 ko None else m1
+  | None => if copy then aset m kn (Some None) else m
+  end.
+
+Definition step (root : str) (st : mstate) (o : op) : mstate * obs :=
+  match o with
+  | OWrite p t => (MState (memo st) (aset (files st) (ensure_relative root p) (Some t)), ObsNone)
+  | ORemove p => (MState (memo st) (aset (files st) (ensure_relative root p) None), ObsNone)
+  | OCopyFs a b =>
+      match aget (files st) (ensure_relative root a) with
+      | Some t => (MState (memo st) (aset (files st) (ensure_relative root b) (Some t)), ObsNone)
+      | None => (st, ObsNone)
+      end
+  | OHash p recalc =>
+      let k := ensure_relative root p in
+      match (if recalc then None else aget (memo st) k) with
+      | Some (Some v) => (st, ObsVal v false)
+      | _ => (* no entry, an entry holding nil, or recalc: hash what is there now *)
+          match aget (files st) k with
+          | None => (st, ObsErr)
+          | Some t => (MState (aset (memo st) k (Some (Some (stream t)))) (files st), ObsVal (stream t) true)
+          end
+      end
+  | OMoveHash a b => (MState (move_or_copy root (memo st) a b move_hash_copies) (files st), ObsNone)
+  | OCopyHash a b => (MState (move_or_copy root (memo st) a b copy_hash_copies) (files st), ObsNone)
+  | OSetHash p v => (MState (aset (memo st) p (Some (Some v))) (files st), ObsNone)   (* p is NOT made relative *)
+  | OMoveOutput a b =>
+      let ko := ensure_relative root a in
+      let kn := ensure_relative root b in
+      match aget (files st) ko with
+      | Some t =>
+          if str_eqb ko kn then (st, ObsNone)
+          else (MState (move_or_copy root (memo st) a b move_hash_copies)
+                       (aset (aset (files st) kn (Some t)) ko None), ObsNone)
+      | None => (st, ObsNone)
+      end
+  end.
+
+(* ---- the protocol under which memoised hashes are right, as a ghost status per memo key ----
+   GAbsent: the memo has no entry          GNil:   the entry holds nil
+   GValid:  the entry is the stream of the tree now at the path
+   GStale:  no claim (the content changed under a valid entry, a wrong digest was set, a digest was
+            moved/copied between paths with different content ...)
+   The only rule: never call Hash(p, recalc=false) on a path whose status is GStale. *)
+Inductive gstat := GAbsent | GNil | GValid | GStale.
+Definition gstat_eqb (a b : gstat) : bool :=
+  match a, b with GAbsent, GAbsent | GNil, GNil | GValid, GValid | GStale, GStale => true | _, _ => false end.
+Definition ghost := amap gstat.
+Definition gget (g : ghost) (k : str) : gstat := match aget g k with Some x => x | None => GAbsent end.
+Definition gset (g : ghost) (k : str) (x : gstat) : ghost := aset g k (Some x).
+Definition demote (g : ghost) (k : str) : ghost := match gget g k with GValid => gset g k GStale | _ => g end.
+Definition same_stream (f : amap node) (a b : str) : bool :=
+  match aget f a, aget f b with Some x, Some y => str_eqb (stream x) (stream y) | _, _ => false end.
+
+Definition g_move (root : str) (f : amap node) (g : ghost) (o n : str) (copy : bool) : ghost :=
+  let ko := ensure_relative root o in
+  let kn := ensure_relative root n in
+  let forget (g' : ghost) := if negb copy && has_prefix memo_forget_prefix ko then gset g' ko GAbsent else g' in
+  match gget g ko with
+  | GValid => forget (gset g kn (if same_stream f ko kn then GValid else GStale))
+  | GStale => forget (gset g kn GStale)
+  | GNil => forget (gset g kn GNil)
+  | GAbsent => if copy then gset g kn GNil else g
+  end.
+
+(* f: the files BEFORE the operation *)
+Definition g_step (root : str) (f : amap node) (g : ghost) (o : op) : ghost :=
+  match o with
+  | OWrite p _ | ORemove p => demote g (ensure_relative root p)
+  | OCopyFs a b => match aget f (ensure_relative root a) with Some _ => demote g (ensure_relative root b) | None => g end
+  | OHash p _ => let k := ensure_relative root p in match aget f k with Some _ => gset g k GValid | None => g end
+  | OMoveHash a b => g_move root f g a b move_hash_copies
+  | OCopyHash a b => g_move root f g a b copy_hash_copies
+  | OSetHash p v =>
+      gset g p (match aget f p with Some t => if str_eqb (stream t) v then GValid else GStale | None => GStale end)
+  | OMoveOutput a b =>
+      let ko := ensure_relative root a in
+      let kn := ensure_relative root b in
+      match aget f ko with
+      | Some _ =>
+          if str_eqb ko kn then g
+          else
+            let away (x : gstat) := if has_prefix memo_forget_prefix ko then GAbsent else x in
+            match gget g ko with
+            | GValid => gset (gset g kn GValid) ko (away GStale)
+            | GStale => gset (gset g kn GStale) ko (away GStale)
+            | GNil => gset (gset g kn GNil) ko (away GNil)
+            | GAbsent => demote g kn
+            end
+      | None => g
+      end
+  end.
+
+Definition allowed (root : str) (g : ghost) (o : op) : bool :=
+  match o with
+  | OHash p false => negb (gstat_eqb (gget g (ensure_relative root p)) GStale)
+  | _ => true
+  end.
+
+(* run a sequence: per operation what was observed, whether the protocol allowed it, and the state after it *)
+Fixpoint exec (root : str) (st : mstate) (g : ghost) (ops : list op) : list (op * obs * bool * mstate) :=
+  match ops with
+  | [] => []
+  | o :: r =>
+      let (st', out) := step root st o in
+      (o, out, allowed root g o, st') :: exec root st' (g_step root (files st) g o) r
+  end.
+Definition follows (root : str) (st : mstate) (g : ghost) (ops : list op) : bool :=
+  forallb (fun e => snd (fst e)) (exec root st g ops).
+
 (* ---- correspondence cases ---- *)
 Inductive case :=
 | CStream (n : node) (observed : str)                  (* bytes the real hasher wrote for n *)
-| CClass (a b : node) (cls : option defect).           (* the harness' classification of the pair *)
+| CClass (a b : node) (cls : option defect)            (* the harness' classification of the pair *)
+| CTop (root : str) (x : top) (observed : option str)  (* bytes written for a top-level path; None: Hash returned an error *)
+| CTopClass (root : str) (x y : top) (cls : option tdefect)
+| CMemo (root : str) (trace : list (op * obs * bool)). (* one long-lived hasher: per operation what it returned and
+                                                          whether the harness' protocol tracker allowed it *)
 
 Definition check (c : case) : bool :=
   match c with
   | CStream n obs => str_eqb (stream n) obs
   | CClass a b cls => wf a && wf b && option_eqb defect_eqb (defect_class a b) cls
+  | CTop root x obs => root_ok root && top_wf x && option_eqb str_eqb (top_stream root x) obs
+  | CTopClass root x y cls =>
+      root_ok root && top_wf x && top_wf y && top_differs x y
+      && option_eqb tdefect_eqb (top_class root x y) cls
+  | CMemo root trace =>
+      list_eqb (fun a b => obs_eqb (snd (fst a)) (snd (fst b)) && Bool.eqb (snd a) (snd b))
+               (map (fun e => fst e) (exec root mstate0 [] (map (fun e => fst (fst e)) trace)))
+               trace
   end.
 
 (* ---- single changes at any depth (used by the local-sensitivity theorem) ---- *)
